@@ -727,7 +727,18 @@ func markerLoopCovers(fn *ssa.Function, use func(ia *ssa.IndexAddr) bool) bool {
 		if !okS || lo != 0 || hi != 16 {
 			return
 		}
-		if n, okN := constLen(rootAlloc(ia.X)); !okN || n != 19 {
+		// the buffer is an allocation of this function, or of the caller of a
+		// helper that fills the header (19 octets when the size is constant)
+		base := rootAlloc(ia.X)
+		if curProg != nil {
+			base = rootAlloc(curProg.origin(base))
+		}
+		switch base.(type) {
+		case *ssa.Alloc, *ssa.MakeSlice:
+		default:
+			return
+		}
+		if n, okN := constLen(base); okN && n != 19 {
 			return
 		}
 		for _, pr := range head.Preds {
